@@ -70,21 +70,6 @@ func (x *recRun) hdeliver(id, to int) {
 	x.res.Count([]any{x.id, "d", id, to})
 }
 
-// waitHeight waits (event based) until node's consensus service has been reset to work on height h or a later one: the
-// timer is re-armed at the very end of dbft.initializeConsensus, after the cached payloads of the new height were replayed.
-func (x *recRun) waitHeight(node int, h uint32) {
-	deadline := time.Now().Add(20 * time.Second)
-	for x.c.Nodes[node].Timer.Height() < h {
-		if time.Now().After(deadline) {
-			x.fatal = fmt.Errorf("node %d was not reset to height %d within 20s (dead driver)", node, h)
-			return
-		}
-		time.Sleep(200 * time.Microsecond)
-	}
-	x.c.Settle()
-	x.observe()
-}
-
 func (x *recRun) nextHeight() uint32 {
 	_, mx := x.minmax()
 	return mx + 1
@@ -327,11 +312,13 @@ func (x *recRun) relayOne(node int, h uint32) bool {
 			if err != nil {
 				return false
 			}
+			bc := x.c.Nodes[node].BC
+			had := bc.BlockHeight() >= h
+			before := x.c.itersOf(node)
 			_ = x.c.Nodes[node].Q.Put(nb)
 			x.emit(map[string]any{"event": "relay", "node": node, "h": h, "hash": b.Hash().StringLE()})
-			bc := x.c.Nodes[node].BC
-			if bc.BlockHeight()+1 < h {
-				x.c.Settle() // the queue keeps it until the gap is closed
+			if had || bc.BlockHeight()+1 < h {
+				x.c.Settle() // nothing to add, or the queue keeps it until the gap is closed
 				x.observe()
 				return true
 			}
@@ -347,7 +334,14 @@ func (x *recRun) relayOne(node int, h uint32) bool {
 					return false
 				}
 			}
-			x.waitHeight(node, h+1)
+			// event based: the ledger has the block, so the service gets ONE block event and completes one iteration of its
+			// loop for it (handleChainBlock -> dbft.Reset -> replay of the cache happen inside that iteration)
+			if err := x.c.waitIter(node, before); err != nil {
+				x.fatal = err
+				return false
+			}
+			x.c.Settle()
+			x.observe()
 			return true
 		}
 	}
@@ -463,7 +457,8 @@ func cacheScen(t *testing.T, res *vh.Result, tr *vh.Trace, id, n int, order, sub
 		x.emit(map[string]any{"event": "cache_replayed", "node": Xn, "vi": X, "h": H + 1, "order": order, "view": view1,
 			"got_req": gotReq, "got_preps": preps, "got_commits": cmts,
 			"sent_resp": x.find2("PrepareResponse", X, view1, H+1) >= 0, "sent_commit": x.find2("Commit", X, view1, H+1) >= 0,
-			"lh": x.c.Nodes[Xn].BC.BlockHeight(), "assembled": x.rc.assembled(Xn, H+1), "with_tx": withTx})
+			"lh": x.c.Nodes[Xn].BC.BlockHeight(), "assembled": x.rc.assembled(Xn, H+1), "with_tx": withTx,
+			"reset": x.c.Nodes[Xn].Timer.Height() >= H+1})
 		res.Inc("cache_scenarios", 1)
 		res.Count([]any{"cache", n, order, subset, X, withTx})
 		// late payloads of a finished height
